@@ -190,8 +190,78 @@ impl System for Sys {
     }
 }
 
+// ------------------------------------------------------------------------------------------------
+// a knowledge base and its clone are independent objects
+
+#[derive(Clone, Debug)]
+pub enum PairOp {
+    On(usize, Op),
+    CloneFirst,
+}
+
+pub struct PairSys {
+    kbs: Vec<Sys>,
+}
+
+impl PairSys {
+    pub fn new() -> Self {
+        PairSys { kbs: vec![Sys::new()] }
+    }
+}
+
+impl System for PairSys {
+    type Op = PairOp;
+    fn enabled(&self) -> Vec<PairOp> {
+        let inner = [Op::Add(0, 5), Op::Add(1, 0), Op::Add(2, 5), Op::Remove(0), Op::Remove(1), Op::SetEnabled(1, false), Op::Clear];
+        let mut v = vec![];
+        for t in 0..self.kbs.len() {
+            for o in &inner {
+                v.push(PairOp::On(t, o.clone()));
+            }
+        }
+        if self.kbs.len() == 1 {
+            v.push(PairOp::CloneFirst);
+        }
+        v
+    }
+    fn step(&mut self, op: &PairOp) -> Result<u64, Mismatch> {
+        let h = match op {
+            PairOp::On(t, o) => self.kbs[*t].step(o)?,
+            PairOp::CloneFirst => {
+                let kb = self.kbs[0].kb.clone();
+                let model = self.kbs[0].model.clone();
+                let v = kb.version();
+                self.kbs.push(Sys { kb, model, last_version: v });
+                7
+            }
+        };
+        // the object that was not touched still shows exactly its own rules
+        for (i, k) in self.kbs.iter().enumerate() {
+            k.observe().map_err(|m| Mismatch::tagged(&m.class, format!("{} after {:?}: {}", if i == 0 { "original" } else { "clone" }, op, m.detail), &["knowledge_base_and_its_clone"]))?;
+        }
+        Ok(h)
+    }
+    fn kind(op: &PairOp) -> String {
+        match op {
+            PairOp::On(_, o) => Sys::kind(o),
+            PairOp::CloneFirst => "clone".to_string(),
+        }
+    }
+    fn model_state(&self) -> u64 {
+        hstr(&format!("{:?}", self.kbs.iter().map(|k| &k.model).collect::<Vec<_>>()))
+    }
+}
+
 pub fn run(opts: &Opts) -> Vec<Report> {
     let mut out = vec![];
+    if crate::props::wants(opts, "kb_and_clone_histories") {
+        let depth = if opts.tier == crate::Tier::Quick { 5 } else { 6 };
+        let mut cfg = Config::new("kb_and_clone_histories", depth);
+        cfg.expected_letters = ["add", "remove", "set_enabled", "clear", "clone"].iter().map(|s| s.to_string()).collect();
+        let mut r = explore::explore(&PairSys::new, &cfg);
+        r.bound = format!("all histories of length <= {} over add(A|C salience 5, B salience 0) / remove(A|B) / disable(B) / clear on a knowledge base and, once taken, on its clone; after every step both objects are observed in full", depth);
+        out.push(r);
+    }
     if crate::props::wants(opts, "kb_closure") {
         let mut cfg = Config::new("kb_closure", 40);
         cfg.ctx = json!({"names": NAMES, "saliences": SALIENCES});
@@ -207,5 +277,8 @@ pub fn run(opts: &Opts) -> Vec<Report> {
 
 pub fn replay(case: &serde_json::Value) -> crate::props::ReplayResult {
     let ch = crate::props::choices_of(case);
+    if case["sub"].as_str() == Some("kb_and_clone_histories") {
+        return crate::props::conv(explore::replay(&PairSys::new, &ch));
+    }
     crate::props::conv(explore::replay(&Sys::new, &ch))
 }
